@@ -24,6 +24,17 @@ type searchCase struct {
 	Config string   `json:"config"`
 	Param  int      `json:"param"` // branch limit for the plausible-move configuration
 	Depth  int      `json:"depth"`
+	// TableBytes > 0: the search gets a fresh transposition table of that size (only honoured
+	// for position-determined configurations whose tree contains no repetition / fifty-move draw)
+	TableBytes uint64 `json:"table_bytes,omitempty"`
+}
+
+// tableFor returns the table a single search of this case runs with.
+func tableFor(c searchCase, cfg searchConfig, b *board.Board, g *oracle.Game, ref *refsearch.Result) (search.TranspositionTable, bool) {
+	if c.TableBytes == 0 || !cfg.PositionDetermined || ref.SawRepetitionOrFifty || g.DrawEver() || b.Result().Outcome == board.Draw {
+		return search.NoTranspositionTable{}, false
+	}
+	return search.NewTranspositionTable(context.Background(), c.TableBytes), true
 }
 
 // handBack compares what the board reports before and after a search (Unknown ~ Undecided;
@@ -153,7 +164,8 @@ var checkC03 = def("C03/minimax", func(c searchCase) error {
 	}
 	sb := b.Fork()
 	before := takeSnap(sb)
-	nodes, score, pv, serr := s.Search(context.Background(), search.EmptyContext, sb, c.Depth)
+	tt, withTable := tableFor(c, cfg, b, g, ref)
+	nodes, score, pv, serr := s.Search(context.Background(), &search.Context{TT: tt}, sb, c.Depth)
 	if serr != nil {
 		return fmt.Errorf("search failed: %v", serr)
 	}
@@ -163,6 +175,9 @@ var checkC03 = def("C03/minimax", func(c searchCase) error {
 		return fmt.Errorf("search returned the invalid score %v", score)
 	}
 	where := fmt.Sprintf("%s depth %d at %s (history %d plies)", c.Config, c.Depth, g.Cur().FEN(), len(c.Moves))
+	if withTable {
+		where += fmt.Sprintf(", fresh table of %d bytes", c.TableBytes)
+	}
 	if !sameValue(got, ref.Value) {
 		return fmt.Errorf("%s: search returned %v, exhaustive minimax over the same moves and leaves gives %v", where, got, ref.Value)
 	}
@@ -208,7 +223,10 @@ var checkC03 = def("C03/minimax", func(c searchCase) error {
 	if len(c.Moves) > 0 {
 		labels = append(labels, "with-history")
 	}
-	stats.Case("C03/minimax", stats.FP(c.FEN, fmt.Sprint(c.Moves), c.Config, c.Param, c.Depth), nt, labels...)
+	if withTable {
+		labels = append(labels, "with-fresh-table")
+	}
+	stats.Case("C03/minimax", stats.FP(c.FEN, fmt.Sprint(c.Moves), c.Config, c.Param, c.Depth, c.TableBytes), nt, labels...)
 	stats.Note("C03/minimax", "reference_nodes", int64(ref.Nodes))
 	return nil
 })
@@ -436,6 +454,9 @@ func genSearchCase(t *rapid.T, configs []searchConfig) searchCase {
 		}
 	}
 	c := searchCase{FEN: gc.FEN, Moves: gc.Moves, Config: cfg.Name, Param: rapid.IntRange(1, 9).Draw(t, "param")}
+	if rapid.IntRange(0, 2).Draw(t, "withtable") == 0 {
+		c.TableBytes = rapid.SampledFrom([]uint64{32, 64, 4096, 1 << 20}).Draw(t, "tablebytes")
+	}
 	d := estimateDepth(g, cfg, 6, 25_000)
 	if mating && d > 2 {
 		// mate-distance arithmetic lives at the deep end
@@ -448,7 +469,7 @@ func genSearchCase(t *rapid.T, configs []searchConfig) searchCase {
 
 func TestC03_minimax(t *testing.T) {
 	runRapid(t, "C03/minimax", 30000, func(t *rapid.T) searchCase {
-		return genSearchCase(t, searchConfigs)
+		return genSearchCase(t, abConfigs)
 	}, func(c searchCase) error {
 		stats.Sample("C03/minimax", c)
 		return checkC03(c)
@@ -460,7 +481,7 @@ func TestC03_minimax(t *testing.T) {
 // the side delivering it has few alternatives (so that the leaf's value decides the root).
 func TestC03_horizon(t *testing.T) {
 	var quiet []searchConfig
-	for _, c := range searchConfigs {
+	for _, c := range abConfigs {
 		if c.Quiescence && !c.Heavy {
 			quiet = append(quiet, c)
 		}
